@@ -6,6 +6,7 @@ package main
 // coverage, never cause an alarm.
 
 import (
+	"strconv"
 	"fmt"
 	"math"
 
@@ -33,7 +34,8 @@ func projExpr(e parser.ValueExpr) J {
 		return eStr(e.String)
 	case *parser.NumberLiteral:
 		if e.Number > math.MaxInt32 || e.Number < -math.MaxInt32 {
-			pfail("number out of the range TLC can represent: %d", e.Number)
+			// beyond the integers of the specification: carried as its decimal text
+			return J{"k": "num", "big": true, "s": strconv.Itoa(e.Number)}
 		}
 		return eNum(e.Number)
 	case *parser.RatioLiteral:
